@@ -917,8 +917,7 @@ def impl_sys(m, script) -> Dict[str, Any]:
                     model_steps.append(ms)
                     rid += 1
                 elif st["step"] == "exec":
-                    if ex.run_one(st["i"]):
-                        pass
+                    ex.run_one(st["i"])  # out of range: nothing happens (nor in the model)
                     execs_since_spin += 1
                     model_steps.append({"step": "execRun", "i": st["i"]})
                 elif st["step"] == "drain":
